@@ -162,6 +162,9 @@ func runProp(w *World, p *propDef, tier, verif string, seed int, start time.Time
 	p.Run(c)
 	extraNonNil = nil
 	nonNilSummary = map[*ssa.Function]int{}
+	if tier == "thorough" {
+		thoroughExtras(c, p)
+	}
 	return c.Finish(verif, start, seed)
 }
 
